@@ -800,3 +800,75 @@ Fixpoint firsts (id : R -> list Z) (before : list R) (l : list R) : list R :=
 End Loops.
 Arguments log_ev : clear implicits.
 Arguments uniq_ev : clear implicits.
+
+(* ------------------------------------------------------------------ shape of the real de-duplication loop *)
+Local Open Scope string_scope.
+
+(* what tools/gen/uniqloop.go reads off uniqResults (Gen/UniqLoop.v): names, the type of the set of
+   seen IDs, the statements between the receive and the membership test, the test, the
+   then-branch before the forwarding select, and the cases of that select (text, body) *)
+Record uniq_loop_desc := {
+  ul_ctx_var : string; ul_in_var : string; ul_out_var : string;
+  ul_set_var : string; ul_set_key_type : string; ul_set_val_type : string;
+  ul_recv_var : string; ul_closed_guard : bool;
+  ul_pre : list string;
+  ul_test_bind : string; ul_test_index : string; ul_test_cond : string; ul_has_else : bool;
+  ul_then : list string;
+  ul_forward : list (string * string) }.
+
+Definition strip_pre (p s : string) : option string :=
+  if String.prefix p s then Some (substring (String.length p) (String.length s - String.length p) s) else None.
+
+Definition strip_suf (q s : string) : option string :=
+  let n := (String.length s - String.length q)%nat in
+  if (String.length q <=? String.length s)%nat && String.eqb (substring n (String.length q) s) q
+  then Some (substring 0 n s) else None.
+
+Definition ident_char (a : ascii) : bool :=
+  let n := N_of_ascii a in
+  ((48 <=? n) && (n <=? 57) || (65 <=? n) && (n <=? 90) || (97 <=? n) && (n <=? 122) || (n =? 95))%N.
+
+Fixpoint is_ident (s : string) : bool :=
+  match s with
+  | EmptyString => false
+  | String a EmptyString => ident_char a
+  | String a s' => ident_char a && is_ident s'
+  end.
+
+Fixpoint mem_pair (x : string * string) (l : list (string * string)) : bool :=
+  match l with
+  | [] => false
+  | y :: l' => (String.eqb (fst x) (fst y) && String.eqb (snd x) (snd y)) || mem_pair x l'
+  end.
+
+(* the loop has the shape of [uniq_run]: the set is keyed by strings; the key of a received result R
+   is exactly R.ID() (bound to a variable right before the test, or used in place); the result is
+   forwarded iff the key is NOT yet in the set, the key is inserted before forwarding, and what is
+   sent downstream is R itself, racing only with cancellation *)
+Definition uniq_loop_ok (d : uniq_loop_desc) : bool :=
+  let r := ul_recv_var d in
+  let id_call := append r ".ID()" in
+  match strip_pre (append (ul_set_var d) "[") (ul_test_index d) with
+  | None => false
+  | Some rest =>
+      match strip_suf "]" rest, strip_pre "_, " (ul_test_bind d) with
+      | Some k, Some e =>
+          String.eqb (ul_set_key_type d) "string" &&
+          ul_closed_guard d && negb (ul_has_else d) &&
+          is_ident r && is_ident e &&
+          (match ul_pre d with
+           | [] => String.eqb k id_call
+           | [s] => is_ident k && String.eqb s (append k (append " := " id_call))
+           | _ => false
+           end) &&
+          String.eqb (ul_test_cond d) (append "!" e) &&
+          (match ul_then d with
+           | [s] => String.prefix (append (ul_test_index d) " = ") s
+           | _ => false
+           end) &&
+          (length (ul_forward d) =? 2)%nat &&
+          mem_pair (append "<-" (append (ul_ctx_var d) ".Done()"), "return") (ul_forward d) &&
+          mem_pair (append (ul_out_var d) (append " <- " r), "") (ul_forward d)
+      | _, _ => false
+      end
+  end.
